@@ -72,9 +72,23 @@ pub fn random_mode(rng: &mut Rng, kind: Kind) -> Mode {
     }
 }
 
+/// windows around and beyond 2^16 slots (narrow integer types for cursors, counters, weights)
+pub const MEGA_PERIODS: [usize; 8] = [65_535, 65_536, 65_537, 70_000, 100_000, 131_072, 131_073, 200_000];
+
+/// O(1) work per call whatever the data: only these kinds get mega windows
+pub fn cheap_per_tick(kind: Kind) -> bool {
+    matches!(kind, Kind::Ema | Kind::Sma | Kind::Wma | Kind::Sd | Kind::Rsi | Kind::Tr | Kind::Atr | Kind::Macd | Kind::Ppo | Kind::Bb | Kind::Kc | Kind::Roc | Kind::Mfi | Kind::Obv)
+}
+
 pub fn random_spec(rng: &mut Rng, tier: Tier, among: Option<&[Kind]>) -> NodeSpec {
     let kind = *rng.pick(among.unwrap_or(&ALL_KINDS));
-    let params = Params::new(random_period(rng, tier), random_period(rng, tier), random_period(rng, tier), random_mult(rng));
+    let mut params = Params::new(random_period(rng, tier), random_period(rng, tier), random_period(rng, tier), random_mult(rng));
+    if rng.chance(0.00004) && cheap_per_tick(kind) {
+        params.p1 = *rng.pick(&MEGA_PERIODS);
+        if rng.chance(0.3) {
+            params.p2 = *rng.pick(&MEGA_PERIODS);
+        }
+    }
     NodeSpec { kind, params, mode: random_mode(rng, kind) }
 }
 
